@@ -8,6 +8,7 @@
 set -u
 export GOFLAGS=-mod=mod GOPROXY=off GOSUMDB=off GOTOOLCHAIN=local CGO_ENABLED=0
 VERIF=$(cd "$(dirname "$0")" && pwd)
+[ "${1:-}" = replay ] && [ -n "${2:-}" ] && REPLAY_FILE=$(readlink -f "$2")
 export VERIF_DIR=$VERIF
 BIN=$VERIF/.bin
 REPO=${VERIF_REPO:-/repo}
@@ -77,7 +78,7 @@ case "${1:-}" in
   replay)
     need plain vec
     for f in inst instvec race racevec; do [ -x "$BIN/vcheck-$f" ] && export "VCHECK_$(echo "$f" | tr a-z A-Z)=$BIN/vcheck-$f"; done
-    exec "$BIN/vcheck-plain" replay "$2" ;;
+    exec "$BIN/vcheck-plain" replay "$REPLAY_FILE" ;;
   C[0-9][0-9])
     id=$1; tier=${2:-quick}
     fl=$(flavours_of "$id")
